@@ -13,14 +13,18 @@ def _params():
                 for resub in (False, True):
                     if resub and pre == "none":
                         continue
-                    out.append(dict(nsub=nsub, per=per, pre=pre, resub=resub))
+                    out.append(dict(nsub=nsub, per=per, pre=pre, resub=resub, kw=()))
+                    if per == 1:
+                        # shutdown(cancel_futures=True) over a delegate that (like the library's own
+                        # executors) only forwards the flag: the sweep must still cover pending futures
+                        out.append(dict(nsub=nsub, per=per, pre=pre, resub=resub, kw=(("cancel_futures", True),)))
     return out
 
 
 @harness("c10.race", prop="C10", traced=("cancel_on_shutdown", "helpers"), horizon=50,
          params=_params())
 def race(mc, p):
-    base = ManualExecutor(mc, mode="manual")
+    base = ManualExecutor(mc, mode="manual", honour_cancel_futures=False)
     ex = CancelOnShutdownExecutor(base)
     accepted = []      # (label, seq at which submit returned)
 
@@ -56,7 +60,7 @@ def race(mc, p):
         return run
 
     def shutter():
-        mc.call("shutdown", ex.shutdown)
+        mc.call("shutdown", ex.shutdown, True, **dict(p["kw"]))
 
     for k in range(p["nsub"]):
         mc.spawn(submitter(k), "sub%d" % k)
